@@ -43,6 +43,7 @@ def two_centres(M, Ka, Kb, pfx=""):
 
 
 class OneElecKernel:
+    fp = True  # also sampled on the unmodified float64 code (bounded stand-in for rounding)
     """_compute_one_elec_integrals[ax,ay,az,bx,by,bz,n,ma,mb] for ax+ay+az = l_a, bx+by+bz = l_b equals
     sum_{pa,pb} d_a d_b N_a N_b (a | 1/|r - C_n| | b) defined by differentiation of the Boys base integral"""
 
@@ -167,6 +168,7 @@ def _real_shell(M, pfx, l, K, Mn, coord, exps, conv=None):
 
 
 class PointChargeInline:
+    fp = True  # also sampled on the unmodified float64 code (bounded stand-in for rounding)
     """end to end on real shells, kernel inlined, in BOTH orientations (l_a >= l_b and l_a < l_b):
     out[m1,c1,m2,c2,n] = -q_n <phi~1| 1/|r-R_n| |phi~2>; and the two orientations are transposes"""
 
@@ -224,6 +226,7 @@ def four_centres(M, K):
 
 
 class TwoElecKernel:
+    fp = True  # also sampled on the unmodified float64 code (bounded stand-in for rounding)
     """_compute_two_elec_integrals / _angmom_zero [c_a,c_b,c_c,c_d,m_a,m_b,m_c,m_d] =
     sum_prims d d d d N N N N (ab|cd) with (ab|cd) defined by differentiation of the all-s integral;
     any Boys function satisfying S6; component lists in the order given"""
